@@ -456,6 +456,13 @@ func init() {
 						solo[sym] = o[0]
 					case e == "" && len(o) == 1 && o[0] == "eof" && f.Syms != "":
 						solo[sym] = c10NoResult
+					case strings.HasPrefix(e, "panic "):
+						// the record alone already brings the Transform down: not a harness problem
+						if c.Shard == 0 {
+							cs := c10Case{Fmt: f.Name, Seq: string(sym)}
+							c.Violation("panic-on-a-single-record:"+f.Name, fmt.Sprintf("%s record %c alone: %s", f.Name, sym, e), cs, nil)
+						}
+						bad = true
 					default:
 						c.HarnessError(fmt.Sprintf("solo run %s %c: %v %s", f.Name, sym, o, e))
 						bad = true
